@@ -242,7 +242,7 @@ def rule_depth(ctx, r):
 def run(ctx):
     r1 = ctx.rule("R1", "the three validators run on every path of graph construction and raise the error kind that applies", min_instances=1)
     from .c03 import graph_witness_summary
-    ctx.structural_or_witness(r1, rule_validators, lambda: graph_witness_summary(ctx), "src/gwf/core.py::Graph.from_targets::validation")
+    ctx.structural_or_witness(r1, rule_validators, lambda: graph_witness_summary(ctx), "src/gwf/core.py::Graph.from_targets::validation", both=True)
     r2 = ctx.rule("R2", "duplicate producers are detected across spellings (normalisation, shared with C03)", min_instances=3)
     rule_norm_path(ctx, r2)
     r3 = ctx.rule("R3", "every command validates the workflow before it submits, cancels, deletes or touches anything", min_instances=6)
